@@ -3,6 +3,8 @@ mod c05;
 mod c06;
 mod c07;
 mod c08;
+mod c09;
+mod c10;
 mod c17;
 mod common;
 mod refmodel;
@@ -79,6 +81,7 @@ fn main() {
             "C06" => c06::replay(&ctx, &path),
             "C17" => c17::replay(&ctx, &path),
             "C07" => c07::replay(&ctx, &path),
+            "C09" => c09::replay(&ctx, &path),
             _ => {
                 eprintln!("no replay for {}", ctx.id);
                 2
@@ -96,6 +99,8 @@ fn main() {
         "C17" => c17::run(&ctx),
         "C07" => c07::run(&ctx),
         "C08" => c08::run(&ctx),
+        "C09" => c09::run(&ctx),
+        "C10" => c10::run(&ctx),
         _ => usage(),
     };
     let code = finish(&ctx, &rep, t0.elapsed().as_secs_f64());
